@@ -352,8 +352,8 @@ _RULE_EXTRA = {
     "C11": "; walks from 3..5 start points with a repeated one; 2 per DAG: CommitsQueue.RemoveAncestors(1..2 commits) on a frontier started from 1..3 commits and advanced by 0..2 pops, judged by reachability (exactly the ancestors leave, the rest keep their order); 4 per DAG (ops *-fault): IsAncestorOf (mostly about an ancestor of the commit with the longest history), a walk, SeekCommonAncestor (2..3 inputs) and RemoveAncestors while the store fails ONE read of a commit once, at a read the query really issues (counted on a healthy run): a definite answer - true/false, a finished walk, 'no common ancestor', the reduced frontier - must be right for the whole graph, an error is accepted only if the failure was delivered",
     "C12": "; 1 in 20: a repository directory (badger + SQLite files) with 1..3 transactions (in progress or committed, begun well before or after the time-to-live: default, 24h or 2h) staging 1..2 refs each, `wrgl gc` or `wrgl prune` through the command line, judged with the refs that exist afterwards as roots; 1 in 20: the SQLite ref store fails with a disk I/O error after 0..5 rows of a scan during prune (nothing reachable may go, success must mean complete), then a healthy re-run; 1 in 40: 30..60 commits over 25..40 tables on a real badger store; 1 in 10 (in addition to the index's own case, op prune-readfault): a repository with 2..5 refs pruned while the object store fails one read of one commit once - with an input/output error or by reporting the stored commit absent - (a ref's target that the mark phase reaches again through another ref or a descendant; any commit of a ref's history, first or second read; any ref's target), then a healthy re-run: nothing a ref reaches through answered reads may go (a ref whose target was reported absent counts as dangling), a run reporting success must have removed everything no ref reaches; the gc repositories run with the process's local zone at UTC, -05:00, +05:30 or -08:00 (by case index), away from UTC with transactions also half an hour short of / past the time-to-live; every other `wrgl gc` command-line case in a zone -05:00 / +09:00 / -10:00 with transactionTTL 1h when configured",
     "C13": "; every write position also as a single injected write error (the operation continues): consistency, error reported or harmless, re-run; every crash point also as a recovery history (crash, a complete prune of the reopened repository, the operation again: same refs, every commit they reach and its table present, consistent); 1 in 4 cases: the fetch command's Fetch (default refspec) against the reference server, remote 1..3 commits ahead on main, optional second branch, 0..2 tags outside the refspec, 1..n packfiles; 1 in 4: one of the four kinds in a repository that also holds an unreachable commit; 1 in 12: `transaction commit` of an open transaction staging 1..3 branches (existing and new), staged as `wrgl commit --txid` does (write kinds and pairing from the extracted loop order; each interrupted run judged on its own branch order)",
-    "C14": "; 1 in 5 scenarios inject the fault into discard (crash or single error at each of its store operations) and discard again; commit faults as crash or single error; 1 in 5 scenarios: the fault is one failing SQL statement inside the ref store (trigger: either statement of a branch's logged ref update, the status flip, a staged-ref delete, the transaction-row delete), then re-run / discard; 1 in 100 (thorough 1 in 400): branches made and the transaction staged by `wrgl commit --txid` (file argument / branch.file / --all in turn), dumped before and after staging and after each `wrgl transaction commit/discard` (one with a staged commit unreadable)",
-    "C15": "; 1 in 8 logged sets run with a failing reflog insert (SQL trigger): must fail and change nothing; 1 in 4 sequences: logged sets with generated author, action, time and transaction id (two ids or none), then logged set + copy/rename + log read of the target; log entries are compared in all their fields; 1 in 5 sequences (tag store=fs): 60..130 ops (thorough 40..260) on the file-based store pkg/ref/fs over 17 file names and the names bulk renames make of them: three refs take most logged sets (entries of 60..400 bytes, generated author/e-mail/action/time, old value handed in as ref.SaveRef does), so logs reach dozens of entries over several 1024-byte chunks of the backward scanner; rename/copy also into directories that held no log; single-directory prefix listings, bulk delete/rename of remotes; logs read in between and for every name at the end; 1 case in 20 (tag fs-rejected): a file-store history that also holds renames / copies / plain sets the directory layout has to refuse (destination is an existing directory or lies below a bound name; c15FsDomain a7): they must fail and change nothing, sources are read and renamed again afterwards",
+    "C14": "; 1 in 5 scenarios inject the fault into discard (crash or single error at each of its store operations) and discard again; commit faults as crash or single error; 1 in 5 scenarios: the fault is one failing SQL statement inside the ref store (trigger: either statement of a branch's logged ref update, the status flip, a staged-ref delete, the transaction-row delete), then re-run / discard; 1 in 100 (thorough 1 in 400): branches made and the transaction staged by `wrgl commit --txid` (file argument / branch.file / --all in turn), dumped before and after staging and after each `wrgl transaction commit/discard` (one with a staged commit unreadable); every third scenario (tag advance): 1..3 ordinary commits of other operations (ref.CommitHead on the raw stores, as `wrgl commit` does) land on any of the four branch names, mostly staged ones, anywhere in the sequence - before the first run, between an interrupted run and the re-run (on branches that run has moved and on ones it has not), after a discard, after the end; every state is judged by `branch-unmoved-or-moved-exactly-once` (a branch is where those commits alone would leave it, or carries the staged commit exactly once with the later ones on top: movedOnceHeads) and the model runs txAdvance",
+    "C15": "; 1 in 8 logged sets run with a failing reflog insert (SQL trigger): must fail and change nothing; 1 in 4 sequences: logged sets with generated author, action, time and transaction id (two ids or none), then logged set + copy/rename + log read of the target; log entries are compared in all their fields; 1 in 5 sequences (tag store=fs): 60..130 ops (thorough 40..260) on the file-based store pkg/ref/fs over 17 file names and the names bulk renames make of them: three refs take most logged sets (entries of 60..400 bytes, generated author/e-mail/action/time, old value handed in as ref.SaveRef does), so logs reach dozens of entries over several 1024-byte chunks of the backward scanner; rename/copy also into directories that held no log; single-directory prefix listings, bulk delete/rename of remotes; logs read in between and for every name at the end; 1 case in 20 (tag fs-rejected): a file-store history that also holds renames / copies / plain sets the directory layout has to refuse (destination is an existing directory or lies below a bound name; c15FsDomain a7): they must fail and change nothing, sources are read and renamed again afterwards; 1 case in 40 (tag longlog): one ref of the SQL store takes 63..700 logged sets (thorough ..1500; half of the lengths on and next to 64/128/256/512), plain and with generated fields, a few other operations in between; its log is read, the ref is copied or renamed, the target log is read, extended and read again",
     "C16": "; 1 in 4 cases: a merge of 2..3 branches (256..955 rows) with a deleted block / block index of base or branch or reads failing after k, under a 75 s watchdog, and without fault compared with the one-processor outcome; the table index is compared too; 1 in 4 of the rest: the commit command's ingest helper on a store that refuses the k-th write (must return the error, never hang); 1 in 5 of the rest: a progress bar created with total in {-1,0,1,5,10,1000}, moved by 0..4 Incr/SetTotal/SetCurrent calls, finished with Done() under a 20 s timer, compared with Model/PBar.lean; the merge consumer reaches the merge channel 0 / 0.3 / 20 ms after Start() (by case index) and, like `wrgl merge`, asks the merger for Columns() and PK() on the first message: they must be the merged table's columns and key, with or without a fault; on 1 case index in 6 additionally an ingest through a store whose writes take 0.5 / 2 / 5 ms (tag slow-store) with more blocks than the sorted-block channel's buffer and the workers hold together (buffer + 2..3 x effective workers + 1, sometimes a few more; 1 in 3 with the sorter spilling several runs to disk), so that the producer blocks in its sends and the last block is sent into a full channel: same table, row and block count as the single-threaded run; three such inputs are corpus cases (corpus/C16/slowstore.jsonl)",
     "C17": "; well-formed packfiles whose block decompresses but is invalid, or whose table object lies about its blocks (key index out of range, wrong row count, wrong width); every 4-byte window of small objects overwritten by a huge count; profiles declaring fewer field names; commit / table / profile bytes also read through the store getters; every string-list / uint-list input also through the decoders built with reuseRecords=true, through StrListDecoder.ReadBytes and the float-list decoder (tag decoder-option); with every receiver case a well-formed packfile whose commit lacks a parent (only parent absent / second parent of a merge absent with the first already in the destination / child sent before its parent)",
     "C18": "; the string-list and uint-list streams also through the decoders built with reuseRecords=true and through StrListDecoder.ReadBytes; with every string-list case a row stream (1..14 rows of 0..5 cells up to 6000 bytes, read with ONE decoder until end of stream by Read and by ReadBytes, both options) under 3 (thorough 8) random chunkings and under fixed 4096- and 512-byte blocks at phase 0 and at a random phase, compared with the whole-buffer result and the Lean row-stream model",
@@ -396,7 +396,9 @@ _LEVEL_EXTRA = {
     "C06": " Block index codec: round trip, re-encoding and injectivity (C06_blockIndex_*); the pre-allocation cap of the decoders is extracted as never bounding a read loop. The store as a function of its history: a save reads back whatever the key held, other keys are untouched, delete unbinds, the same content again changes nothing (C06_save_reads_back, C06_store_op_keeps_other_keys, C06_delete_unbinds, C06_save_again_changes_nothing, C06_store_keys_distinct); the transaction store: committed (with partial commits anywhere) it holds exactly what the same calls leave in a plain store, i.e. what each save was GIVEN, it reads its own staged writes, and nothing reaches the database before a commit (C06_txn_commit_is_the_direct_history, C06_txn_reads_its_own_writes, C06_txn_staged_is_invisible_outside).",
     "C08": " Across wants: C08_all_wants (one whole call of enqueueWants: closed for every non-pending want, acceptable at every position, sound). Across the round's bookkeeping: C08_accepts_reachable_wants and C08_process_sound (Process accepts exactly the wants reachable from refs whatever the timestamps; every ack is a have that is an ancestor of a ref).",
     "C11": " Walks from any list of start points, repeats included, pop every ancestor exactly once (C11_walk_multi_each_once).",
-    "C14": " Discard interrupted at any store operation touches no branch, reports success only when everything is gone, and completes on re-run (C14_discard_fault).",
+    "C14": " Discard interrupted at any store operation touches no branch, reports success only when everything is gone, and completes on re-run (C14_discard_fault). "
+           "Other operations committing to the branches before and between the runs (txAdvance): the re-run completes the transaction with exactly one log entry and exactly one commit of the transaction in the history of every staged branch and none elsewhere "
+           "(C14_completable_across_advances), and leaves a branch an earlier run has moved exactly where it finds it (C14_rerun_keeps_moved_branch, C14_advance_frame).",
     "C19": " A sorter re-used after Reset() starts from the empty state whatever the previous use left in it (C19_reuse_history_independent), hence emits one row per distinct key of the table loaded after the Reset (C19_reuse_kept_spec); for key-less tables that is exactly the set of the table's own distinct rows, each once (C19_reuse_keyless_keeps_every_row), the key being every column of THAT table's width (C19_keyless_key_is_all_columns) and of no narrower one (C19_narrower_index_list_collapses_rows).",
     "C16": " Error reporting never blocks when the channel has one slot per sender (C16_error_report_never_blocks; the capacities of the ingest and merge error channels are extracted facts). Finishing a progress bar returns in every bar state (C16_pbar_done_returns, tied by the fact pbarDoneForcesCompletion).",
 }
